@@ -126,7 +126,14 @@ ASMJIT_FAVOR_SIZE Error FuncArgsContext::init_work_data(const FuncFrame& frame, 
             // The best case, register is allocated where it is expected to be. However, we should
             // not mark this as done if both registers are GP and sign or zero extension is required.
             if (dst_group != RegGroup::kGp) {
-              var.mark_done();
+              // Not done if the destination is declared with the other floating point element type (conversion).
+              TypeId ds = TypeUtils::scalar_of(dst.type_id());
+              TypeId ss = TypeUtils::scalar_of(src.type_id());
+              bool needs_conversion = (ds == TypeId::kFloat32 && ss == TypeId::kFloat64) ||
+                                      (ds == TypeId::kFloat64 && ss == TypeId::kFloat32);
+              if (!needs_conversion) {
+                var.mark_done();
+              }
             }
             else {
               TypeId dt = dst.type_id();
